@@ -177,7 +177,7 @@ impl<'a> LiveEvents<'a> {
             inject: Vec::with_capacity(2),
             anchors: Vec::with_capacity(8),
             rec_stack: Vec::with_capacity(2),
-            budget: budget.map(|budget| BudgetEnforcer::new(budget, policy)),
+            budget: budget.map(|budget| BudgetEnforcer::new(budget, policy).with_alias_replay()),
 
             budget_report,
             budget_report_cb,
@@ -223,7 +223,9 @@ impl<'a> LiveEvents<'a> {
             inject: Vec::with_capacity(2),
             anchors: Vec::with_capacity(8),
             rec_stack: Vec::with_capacity(2),
-            budget: budget.map(|budget| BudgetEnforcer::new(budget, EnforcingPolicy::AllContent)),
+            budget: budget.map(|budget| {
+                BudgetEnforcer::new(budget, EnforcingPolicy::AllContent).with_alias_replay()
+            }),
 
             budget_report,
             budget_report_cb,
@@ -490,6 +492,8 @@ impl<'a> LiveEvents<'a> {
                                 anchor: anchor_id,
                                 location,
                             };
+                            // No replay follows this alias: account for the placeholder node itself.
+                            self.observe_budget_for_replay(&ev)?;
                             self.record(&ev, false, false);
                             self.last_location = location;
                             self.produced_any_in_doc = true;
